@@ -59,7 +59,7 @@ CLAIMS = {
         note='undeclare_vars runs through the literal-lifting loader (dict comprehensions -> symbolic-key dicts), validated by concrete replay on the unlifted module. One known finding (add_var with a gap level).',
         ref='DESIGN.md section 8 C14'),
     'C15': dict(
-        text='Bounded symbolic model checking of the MDD manager: the real MDD.find_or_add, _top_cofactor, ite (unstubbed), apply, collect_garbage, incref/decref, _allocate/_release from an arbitrary valid MDD state over two integer variables (arities 2-3), node contents, counts, ledger and a computed-table entry symbolic; pointwise connectives on <= 9 integer assignments as bit-vectors; MDD canonicity lemma.',
+        text='Bounded symbolic model checking of the MDD manager: the real MDD.find_or_add, _top_cofactor, ite (unstubbed), apply, collect_garbage, incref/decref, _allocate/_release from an arbitrary valid MDD state over two integer variables (arities 2-3), node contents, counts, ledger and a computed-table entry symbolic; pointwise connectives on <= 9 integer assignments as bit-vectors; MDD canonicity lemma; bdd_to_mdd: every externally referenced BDD node gets an MDD reference with the same values on the corresponding bits, BDD functions and counts intact.',
         note='MDD manager steps: small bounds, node numbers concrete, operand references enumerated by the dict lookups of the real code. bdd_to_mdd (harness mdd_conv): the real conversion (real collect_garbage, reorder/swap, cofactor, MDD.find_or_add) on a symbolic BDD manager with an arbitrary ledger, every partition of 2-3 bits into integer variables; node numbers that index Python containers are fixed by the solver where used; the MDD built per path is compared by the solver with the ghost denotation of the BDD nodes (N=3 L=2, N=2 L=3 quick; N=3 L=3 thorough).',
         ref='DESIGN.md section 8 C15'),
     'C16': dict(
@@ -68,7 +68,7 @@ CLAIMS = {
         ref='DESIGN.md section 8 C16'),
     'C19': dict(
         text='Source-level symbolic check of the Cython wrappers (they cannot be built here): the apply body of cudd/cudd_zdd/sylvan/buddy is normalised to Python, executed for each of the 27 operator spellings on symbolic truth tables with the library calls bound to their documented meaning, and z3 decides equality with the real dd.bdd.BDD.apply run on a signed-reference algebra; '
-             'wrap/init/__cinit__/__dealloc__/incref/decref run against a symbolic ledger of library references (creation +1, disposal -1, 0 <= _ref <= library count).',
+             'wrap/init/__cinit__/__dealloc__/incref/decref run against a symbolic ledger of library references (creation +1, disposal -1, 0 <= _ref <= library count); inside apply a per-node ledger of library reference calls (temporaries released on every path); the raw-reference recursions of cudd_zdd.pyx (_forall, _exist, _disjoin, _conjoin, _compose, _c_compose, add_var) run against an opaque library: on every path the call holds no reference at exit except those of nodes stored in the outliving memo or the returned handle, and memoises under its own computed-table tag.',
         note='Trusted base: the table of library-call meanings (CUDD/Sylvan/BuDDy manuals), the line-level .pyx normaliser (result must ast.parse); Cython code generation and the C libraries are outside the claim. One known finding (sylvan quantifier roles).',
         ref='DESIGN.md section 8 C19',
         technique='symbolic execution of the normalised .pyx method bodies with library stubs on z3 bit-vectors; z3 decides equivalence with the real dd.bdd.BDD.apply for all operand values; symbolic reference ledger'),
@@ -90,7 +90,7 @@ CLAIMS = {
         note='reorder contract instantiated with the identity permutation (a cut); counterexamples are replayed on the real code with the growth threshold lowered; 7 known findings (undecorated callers).',
         ref='DESIGN.md section 8 C09'),
     'C12': dict(
-        text='Bounded symbolic model checking of pickle dump/load logic (roots as list/dict/None, fresh or pre-declared receiving manager in the same or another order, levels true/false) and of the whole-manager pickle: loaded roots denote the dumped functions by name, receiving manager canonical with exact counts.',
+        text='Bounded symbolic model checking of pickle dump/load logic (roots as list/dict/None, fresh or pre-declared receiving manager in the same or another order, levels true/false) and of the whole-manager pickle: loaded roots denote the dumped functions by name, receiving manager canonical with exact counts; the same through dd.autoref (Function roots) and for the JSON format.',
         note='open/pickle replaced by an in-memory hand-over (on-disk byte format is outside the claim); replays use real files and real pickle. JSON (dd._copy.dump_json/load_json through dd.autoref): the real code with open/shelve replaced in memory; every number that reaches the JSON text is fixed by the solver where it is formatted (fresh, other-order and same-manager receiving managers).',
         ref='DESIGN.md section 8 C12'),
     'C10': dict(
